@@ -2,7 +2,7 @@ import Arc.Model.C12
 /-!
 # C12 — finite abstraction of the migration interpreter
 
-`FileSt` is projected to `Abs = (hot, cold, tier)` (8 values). Every primitive mutation is
+`FileSt` is projected to `Abs = (hot, cold, tier, recent)` (16 values). Every primitive mutation is
 over-approximated by a finite nondeterministic relation (`absPrim`), the step-list interpreter by
 `absRun`. `runSteps_sim` shows that, for EVERY step list, chunk count and oracle, the concrete run is
 one of the abstract runs. Properties of a concrete step list (the generated one) then reduce to
@@ -14,17 +14,19 @@ structure Abs where
   hot : Bool
   cold : Bool
   tier : Tier
+  recent : Bool
 deriving DecidableEq, Repr
 
-def absOf (s : FileSt) : Abs := { hot := s.hot, cold := s.cold, tier := s.tier }
+def absOf (s : FileSt) : Abs := { hot := s.hot, cold := s.cold, tier := s.tier, recent := s.recent }
 
 def allAbs : List Abs :=
-  [⟨false, false, .hot⟩, ⟨false, true, .hot⟩, ⟨true, false, .hot⟩, ⟨true, true, .hot⟩,
-   ⟨false, false, .cold⟩, ⟨false, true, .cold⟩, ⟨true, false, .cold⟩, ⟨true, true, .cold⟩]
+  [false, true].flatMap fun r =>
+  [⟨false, false, .hot, r⟩, ⟨false, true, .hot, r⟩, ⟨true, false, .hot, r⟩, ⟨true, true, .hot, r⟩,
+   ⟨false, false, .cold, r⟩, ⟨false, true, .cold, r⟩, ⟨true, false, .cold, r⟩, ⟨true, true, .cold, r⟩]
 
 theorem mem_allAbs (a : Abs) : a ∈ allAbs := by
-  obtain ⟨h, c, t⟩ := a
-  cases h <;> cases c <;> cases t <;> simp [allAbs]
+  obtain ⟨h, c, t, r⟩ := a
+  cases h <;> cases c <;> cases t <;> cases r <;> simp [allAbs]
 
 def Abs.has (a : Abs) : Tier → Bool
   | .hot => a.hot
@@ -55,7 +57,7 @@ def absPrim : Act → Abs → List (Abs × R)
   | .copy .hot .hot, a => [(a, .failed)]
   | .copy .cold .hot, a => [(a, .failed)]
   | .copy .cold .cold, a => [(a, .failed)]
-  | .setMeta t, a => absAtomic a { a with tier := t }
+  | .setMeta t, a => absAtomic a { a with tier := t, recent := true }
   | .del t, a => absAtomic a (a.setObj t false)
 
 def absCleanup : List Act → Abs → List (Abs × Exit)
@@ -120,7 +122,7 @@ theorem copyHotCold_sim (n : Nat) (x : Exec) :
     split
     · simp [absAtomic, absOf]
     · -- chunks
-      generalize hx1 : ({ st := { hot := x.st.hot, cold := x.st.cold, part := some 0, tier := x.st.tier, pend := x.st.pend },
+      generalize hx1 : ({ st := { hot := x.st.hot, cold := x.st.cold, part := some 0, tier := x.st.tier, pend := x.st.pend, recent := x.st.recent },
                           orc := r, logged := x.logged } : Exec) = x1
       have habs1 : absOf x1.st = absOf x.st := by subst hx1; rfl
       have hc := copyChunks_abs n 0 x1
@@ -135,7 +137,7 @@ theorem copyHotCold_sim (n : Nat) (x : Exec) :
               intro r'
               have h2 : absOf x2.st = absOf x.st := hc.trans habs1
               simp only [absOf, Abs.mk.injEq] at h2 ⊢
-              exact ⟨h2.1, trivial, h2.2.2⟩)
+              exact ⟨h2.1, trivial, h2.2.2.1, h2.2.2.2⟩)
           rw [hc, habs1] at this
           exact this
         · simp [absAtomic, hc, habs1]
